@@ -122,7 +122,7 @@ def extract_witness(o, trace):
 
 def handle_failure(prop, o, r):
     from . import native
-    d = ensure_dir(os.path.join(VERIF, 'replays', prop))
+    d = ensure_dir(os.path.join(os.environ.get('VERIF_REPLAYS', os.path.join(VERIF, 'replays')), prop))
     path = os.path.join(d, re.sub(r'[^A-Za-z0-9_.@-]', '_', o.name) + '.json')
     w = extract_witness(o, r.get('trace', ''))
     rp = dict(property=prop, obligation=o.name, grade=o.grade, config=o.cfg,
